@@ -503,7 +503,7 @@ def main(prop, tier, seed, only_facets=None):
     if exhaustive:
         coverage["exhaustive_part"] = mod.EXHAUSTIVE_PART
     ev = {
-        "property_id": prop, "tier": tier, "seed": int(seed), "level": "exploration",
+        "property_id": prop, "tier": tier, "seed": int(seed), "level": getattr(mod, "LEVEL", "exploration"),
         "coverage": coverage,
         "assumptions": list(getattr(mod, "ASSUMPTIONS", [])),
         "wall_s": round(wall, 2),
